@@ -108,6 +108,14 @@ def generate(rng, tier):
             'identity': identity,
         })
 
+    surplus = None
+    if shape == 'two-instances' and identity_group and rng.random() < 0.4:
+        # a group with fewer identities than instances: the first instance holds identity 0, the second one is a surplus
+        # instance without an identity (registered under the group's placeholder node)
+        for c in containers:
+            c['identity'] = 0 if c['instance'] == instance else None
+        surplus = [c for c in containers if c['identity'] is None]
+
     actions = []
     last_put = {}
     for c in containers:
@@ -133,6 +141,13 @@ def generate(rng, tier):
         host = c['host'] if rng.random() < 0.75 else HOSTS[1 - HOSTS.index(c['host'])]
         actions.append({'id': 'aux%d:%s:%s:%s' % (i, kind, host, c['cid']), 'kind': kind,
                         'cid': c['cid'], 'host': host, 'deps': ['put:' + c['cid']]})
+
+    if surplus:
+        # the runtime of the identity-0 container cleans its registrations up while the surplus instance is registered
+        holder = [c for c in containers if c['identity'] == 0][0]
+        actions.append({'id': 'auxs:unreg_identity:%s:%s' % (holder['host'], holder['cid']), 'kind': rng.choice(['unreg_identity', 'unreg_all']),
+                        'cid': holder['cid'], 'host': holder['host'],
+                        'deps': ['put:' + holder['cid'], 'put:' + surplus[0]['cid']]})
 
     return {
         'shape': shape,
